@@ -6,6 +6,7 @@ from ..r_domains import rule_domains
 from ..r_escape import rule_yield_then_mutate, rule_borrowed_pool
 from ..r_hygiene import rule_hygiene as _rule_hygiene
 from ..r_construct import rule_protocol_dunders as _rule_dunders
+from ..r_round8 import rule_stereo_gates as _r8_gates
 
 LEVEL = 'other'
 
@@ -20,3 +21,4 @@ def run(ck, repo):
     rule_borrowed_pool(ck, repo, 'C07.D3-pooled-mappings-copied', in_iso, floor=2)
     _rule_hygiene(ck, repo, 'C07.H-dataflow-hygiene', 'C07')
     _rule_dunders(ck, repo, 'C07.D0-container-protocols', ['chython.containers.molecule:MoleculeContainer', 'chython.containers.query:QueryContainer', 'chython.containers.cgr:CGRContainer'])
+    _r8_gates(ck, repo, 'C07.D4-stereo-gates')
